@@ -17,8 +17,8 @@ import (
 )
 
 type treeCase struct {
-	name   string
-	build  func(tc *treeCtx) *etree.Element // returns the root element
+	name  string
+	build func(tc *treeCtx) *etree.Element // returns the root element
 }
 
 type treeCtx struct {
@@ -161,10 +161,22 @@ func runC09Trees(c *Ctx) {
 			r.AddChild(tc.enc(plainA(), ""))
 			return r
 		}},
-		{"plaintext-not-xml", func(tc *treeCtx) *etree.Element { r := newRoot(); r.AddChild(tc.enc([]byte("this is not XML <"), "")); return r }},
-		{"plaintext-without-root", func(tc *treeCtx) *etree.Element { r := newRoot(); r.AddChild(tc.enc([]byte("<!-- no root element -->"), "")); return r }},
+		{"plaintext-not-xml", func(tc *treeCtx) *etree.Element {
+			r := newRoot()
+			r.AddChild(tc.enc([]byte("this is not XML <"), ""))
+			return r
+		}},
+		{"plaintext-without-root", func(tc *treeCtx) *etree.Element {
+			r := newRoot()
+			r.AddChild(tc.enc([]byte("<!-- no root element -->"), ""))
+			return r
+		}},
 		{"plaintext-empty", func(tc *treeCtx) *etree.Element { r := newRoot(); r.AddChild(tc.enc([]byte{}, "")); return r }},
-		{"plaintext-deflated", func(tc *treeCtx) *etree.Element { r := newRoot(); r.AddChild(tc.enc(deflateBytes(plainA(), 9), "")); return r }},
+		{"plaintext-deflated", func(tc *treeCtx) *etree.Element {
+			r := newRoot()
+			r.AddChild(tc.enc(deflateBytes(plainA(), 9), ""))
+			return r
+		}},
 		{"plaintext-is-response", func(tc *treeCtx) *etree.Element {
 			r := newRoot()
 			r.AddChild(tc.enc([]byte(`<samlp:Response xmlns:samlp="urn:oasis:names:tc:SAML:2.0:protocol" ID="inner"/>`), ""))
